@@ -254,6 +254,7 @@ type sim struct {
 	algoN      int
 	algoLabels bool
 	opIndex    int
+	writesTotal int
 	stamps     map[string]string // object key -> "fullprecision|rank" of CompletionTime
 }
 
@@ -537,6 +538,11 @@ func (s *sim) begin(views [nKinds]int, faults uint64, abort int) {
 
 func (s *sim) end(res reconcile.Result, err error) string {
 	s.inRec = false
+	for _, l := range s.log {
+		if !strings.HasPrefix(l, "db.get") && !strings.HasPrefix(l, "rpc.validate") {
+			s.writesTotal++
+		}
+	}
 	r := "ok"
 	switch {
 	case err != nil:
